@@ -90,6 +90,7 @@ type AccessSummary struct {
 	Threads    map[string]bool
 	Sites      map[string]bool
 	UnlockedAt map[string]bool
+	Writers    map[string]bool
 }
 
 type PassModel struct {
